@@ -76,6 +76,10 @@ def blocks(tier, seed):
             for pz in (False, True):
                 for pre in itertools.product((0, 1), repeat=3):
                     out.append({"grid": {"kind": "cyl", "shape": list(shape), "R": 2.0, "z": [0.0, 0.5 * shape[1]], "periodic_z": pz}, "prefix": list(pre), "via_field": False})
+    # periodic cylinders whose z bounds / spacing are not exactly representable: every image that is mirror-symmetric about the periodic
+    # boundary (its on-axis component is centred EXACTLY on the boundary), for a lattice of 41 one-decimal lower bounds x 3 one-decimal lengths x 3 cell counts
+    for dzi in range(3):
+        out.append({"cylbounds": dzi})
     # on-axis bodies of revolution on larger cylindrical grids: every layer z holds the cells r < w_z, w over a width alphabet
     # (all profiles enumerated: discs with tails, stacks, gaps = several components, winding cores)
     prof = [((8, 6), [0, 1, 2, 8]), ((8, 8), [0, 1, 8])] + ([((8, 8), [0, 1, 3, 8]), ((12, 6), [0, 1, 5, 12]), ((8, 10), [0, 1, 8])] if tier == "thorough" else [])
@@ -149,6 +153,29 @@ def cases(block):
         for i in range(0, len(seq), 64):
             yield {"sequence": seq[i:i + 64]}
             yield {"sequence": seq[i + 1:i + 65]}
+        return
+    if "cylbounds" in block:
+        L = [11.1, 12.3, 16.8][block["cylbounds"]]
+        nr = 3
+        for nz in (4, 20, 37):
+            for k in range(41):
+                z0 = round(0.7 * k - 10, 1)  # both bounds are one-decimal numbers: spacing and period are not exactly representable
+                g = {"kind": "cyl", "shape": [nr, nz], "R": 3.0, "z": [z0, round(z0 + L, 1)], "periodic_z": True}
+                if nz == 4:
+                    halves = [np.array(half, bool).reshape(nr, 2) for half in itertools.product((0, 1), repeat=nr * 2)]
+                else:  # symmetric bodies of revolution: m layers of r cells on either side of the boundary (+ a thinner tail)
+                    halves = []
+                    for m, r, tail in itertools.product((1, 2, 4), (1, 2), (0, 3)):
+                        h = np.zeros((nr, nz // 2), bool)
+                        h[:r, :m] = True
+                        h[:1, :m + tail] = True
+                        halves.append(h)
+                for h in halves:
+                    if not h[0, 0]:
+                        continue  # the on-axis cell next to the boundary is set: the component straddles the boundary
+                    mid = np.zeros((nr, nz - 2 * h.shape[1]), bool)
+                    img = np.concatenate([h, mid, h[:, ::-1]], axis=1)
+                    yield {"grid": g, "bits": "".join("1" if b else "0" for b in img.ravel()), "via_field": False, "cylbounds": True}
         return
     if "rectpairs" in block:
         rp = block["rectpairs"]
@@ -250,6 +277,8 @@ def run_case(case, ctx):
         ctx.count("cyl-profile-images")
     if g["kind"] == "cart" and not (1e-3 <= max(g["dx"]) <= 1e3):
         ctx.count("other-length-units")
+    if case.get("cylbounds"):
+        ctx.count("cyl-component-centred-on-the-periodic-boundary")
     if case.get("rectpair"):
         ctx.count("two-rectangle-images-8x8")
     comps = geom.components(img, periodic)
@@ -448,4 +477,4 @@ def run_case(case, ctx):
 
 def expected_positive(tier):
     return ["C02.bijection", "C02.disjoint", "C02.omitted", "C02.cyl-empty", "C02.inbox", "C02.entry-point", "winding-components",
-            "components-crossing-a-periodic-boundary", "corner-crossing-components", "omitted-components", "cyl-off-axis-only", "multi-component-images", "cyl-profile-images", "alternating-mask-sequences", "shared-grid-object-sequences", "two-rectangle-images-8x8", "other-length-units"]
+            "components-crossing-a-periodic-boundary", "corner-crossing-components", "omitted-components", "cyl-off-axis-only", "multi-component-images", "cyl-profile-images", "alternating-mask-sequences", "shared-grid-object-sequences", "two-rectangle-images-8x8", "other-length-units", "cyl-component-centred-on-the-periodic-boundary"]
